@@ -197,15 +197,57 @@ extern "C" void h_entry()
                 }
                 if constexpr (OP == OP_COPY_ASSIGN)
                 {
-                    b = a;  // still assignable (no further failure is injected)
-                    M m2 = ma;
-                    m2.cap_exact = false;
-                    inv<LT>(b, m2, 500);
+                    // still assignable (no further failure is injected): by copy, or by move from a small vector of another allocator
+                    usize how = verif_nondet_size();
+                    verif_assume(how < 2);
+                    how = verif_fork(how);
+                    if (how == 0)
+                    {
+                        b = a;
+                        M m2 = ma;
+                        m2.cap_exact = false;
+                        inv<LT>(b, m2, 500);
+                    }
+                    else
+                    {
+                        M mc{};
+                        for (usize j = 0; j < LT::N; ++j)
+                        {
+                            mc.fixed[j] = ma.fixed[j] ? 1 : 0;
+                        }
+                        mc.cap = 1;
+                        mc.budget = 8 * LT::NVARY;
+                        Vec c = make_vec<LT, Vec>(1, mc.budget, mc.fixed, Alloc(ID_A));
+                        const auto e = draw_elem<LT>(mc, 1);
+                        if (has_room(mc, e))
+                        {
+                            emplace_elem<LT>(c, e);
+                            mc.e[mc.n++] = e;
+                        }
+                        b = std::move(c);
+                        mc.cap_exact = false;
+                        inv<LT>(b, mc, 600);
+                    }
                 }
                 else
                 {
-                    b.clear();
-                    verif_assert(b.size() == 0, 501);
+                    usize how = verif_nondet_size();
+                    verif_assume(how < 2);
+                    how = verif_fork(how);
+                    if (how == 0)
+                    {
+                        b.clear();
+                        verif_assert(b.size() == 0, 501);
+                    }
+                    else
+                    {
+                        // both operands are still usable: the same assignment succeeds when it is repeated without a failure
+                        const M ma0 = ma;
+                        b = std::move(a);
+                        mb = ma0;
+                        mb.cap_exact = false;
+                        inv<LT>(b, mb, 700);
+                    }
                 }
             }
         }
@@ -259,10 +301,24 @@ extern "C" void h_entry()
                     {
                         check_elem<LT>(typename Vec::reference(e), ma.e[0], 400);
                     }
-                    f = e;  // still assignable
                     if (how == 0)
                     {
+                        usize again = verif_nondet_size();
+                        verif_assume(again < 2);
+                        again = verif_fork(again);
+                        if (again == 0)
+                        {
+                            f = e;  // still assignable
+                        }
+                        else
+                        {
+                            f = std::move(e);
+                        }
                         check_elem<LT>(typename Vec::reference(f), ma.e[0], 500);
+                    }
+                    else
+                    {
+                        f = e;
                     }
                 }
                 inv<LT>(a, ma, 200);
